@@ -26,19 +26,23 @@ static CREATED: AtomicU64 = AtomicU64::new(0);
 /// WEAKED flag stays); 2: every other node
 static WEAKED: AtomicU64 = AtomicU64::new(0);
 
-pub struct CNode {
-    next: [AtomicRc<CNode>; 2],
+/// `W` words of inline payload (0, or 128 = 1 KiB: the payload must not end up on the stack of
+/// the recursive destructor)
+pub struct CNode<const W: usize> {
+    next: [AtomicRc<CNode<W>>; 2],
     id: u64,
+    #[allow(dead_code)]
+    pad: [u64; W],
 }
 
-unsafe impl RcObject for CNode {
+unsafe impl<const W: usize> RcObject for CNode<W> {
     fn pop_edges(&mut self, out: &mut Vec<Rc<Self>>) {
         out.push(self.next[0].take());
         out.push(self.next[1].take());
     }
 }
 
-impl Drop for CNode {
+impl<const W: usize> Drop for CNode<W> {
     fn drop(&mut self) {
         let probe = 0u8;
         let a = &probe as *const u8 as usize;
@@ -61,14 +65,14 @@ impl Monitor for CMon {
         if kind == circ::verif::kind::RECLAIM_DEFER && b > 0 {
             REDEFERS.fetch_add(1, Relaxed);
             if std::env::var_os("VERIF_CHAIN_DEBUG").is_some() {
-                let st = crate::shadow::read_state(circ::verif::state_addr::<CNode>(_a));
+                let st = crate::shadow::read_state(circ::verif::state_addr::<CNode<0>>(_a));
                 eprintln!("DEFER depth {} cap={} at epoch {} (mod16 {}): child stamp {} drops so far {}", b, c, crate::runner::clock(), crate::runner::clock() % 16, st >> 60, DROPS.load(Relaxed));
             }
         }
     }
 }
 
-const SHAPES: [&str; 16] = ["chain", "chain", "chain", "chain", "chain", "chain", "binary-tree", "binary-tree", "comb", "wide-tree", "right-spine", "zig-zag", "comb-right", "comb-right3", "random-tree", "random-tree"];
+const SHAPES: [&str; 16] = ["chain", "chain", "chain", "chain", "chain", "express", "binary-tree", "binary-tree", "comb", "wide-tree", "right-spine", "zig-zag", "comb-right", "comb-right3", "random-tree", "random-tree"];
 
 /// Bound on epoch advances between releasing the head and the last destructor (C06). Measured on
 /// the repaired tree over 400 seeds: at most 18 advances for a single 1024-chunk, 30 for two,
@@ -159,9 +163,24 @@ pub fn gen(prop: &str, seed: u64, stack: bool) -> RunDesc {
     };
     let age = if stack { 4 + rng.below(4) } else { *rng.pick(&[0u64, 1, 2, 3, 4, 5, 6, 8, 12, 13, 14, 15, 16, 17, 20, 30, 33, 40]) };
     let writer = rng.below(4); // 0 From<Rc> (stamp 0), 1 store, 2 swap, 3 compare_exchange
-    let hold = if !stack && shape < 6 && n > 2 && rng.chance(0.4) { Some(1 + rng.below(n - 1)) } else { None };
+    let hold = if !stack && shape < 5 && n > 2 && rng.chance(0.4) {
+        // anywhere, or right at the depth at which the cascade cuts itself off
+        let at_cap: Vec<u64> = [1023u64, 1024, 1025, 2047, 2048, 2049].iter().copied().filter(|&h| h < n).collect();
+        if !at_cap.is_empty() && rng.chance(0.35) {
+            Some(*rng.pick(&at_cap))
+        } else {
+            Some(1 + rng.below(n - 1))
+        }
+    } else {
+        None
+    };
     let noise = if rng.chance(0.4) { 1 + rng.below(2) } else { 0 };
     let weaked = if !stack && rng.chance(0.3) { 1 + rng.below(2) } else { 0 };
+    // stack runs: a third with 1 KiB of inline payload per node
+    let payload_words: u64 = if stack && n <= 100_000 && rng.chance(0.5) { 128 } else { 0 };
+    // stack runs: a quarter drop the last reference from a thread-local destructor of another
+    // thread (same stack size), after that thread's participant handle is gone
+    let drop_in_tls: u64 = (stack && rng.chance(0.25)) as u64;
     let stack_kib: u64 = if stack { *rng.pick(&[64u64, 128, 256, 512, 1024, 2048, 2048, 8192]) } else { 2048 };
     let profile = if stack && rng.chance(0.35) { "dev" } else { "sim" };
     cfg.step_cap = 2_000_000 + 60 * n;
@@ -173,6 +192,8 @@ pub fn gen(prop: &str, seed: u64, stack: bool) -> RunDesc {
         .set("hold_at", hold.map(|h| h as i64).unwrap_or(-1))
         .set("noise_threads", noise)
         .set("weaked_nodes", weaked)
+        .set("payload_words", payload_words)
+        .set("drop_in_tls", drop_in_tls)
         .set("stack_kib", stack_kib)
         .set("profile", profile)
         .set("stack_check", stack)
@@ -188,7 +209,7 @@ pub fn gen(prop: &str, seed: u64, stack: bool) -> RunDesc {
     RunDesc { prop: prop.to_string(), family: if stack { "chain-stack" } else { "chain" }.into(), seed, cfg, threads, params, schedule: None, buggify_script: None }
 }
 
-fn link(parent: &Rc<CNode>, i: usize, child: Rc<CNode>, writer: u64) {
+fn link<const W: usize>(parent: &Rc<CNode<W>>, i: usize, child: Rc<CNode<W>>, writer: u64) {
     let cell = &parent.as_ref().unwrap().next[i];
     let g = circ::cs();
     match writer {
@@ -201,7 +222,7 @@ fn link(parent: &Rc<CNode>, i: usize, child: Rc<CNode>, writer: u64) {
     }
 }
 
-fn node(id: u64, c0: Rc<CNode>, c1: Rc<CNode>, writer: u64) -> Rc<CNode> {
+fn node<const W: usize>(id: u64, c0: Rc<CNode<W>>, c1: Rc<CNode<W>>, writer: u64) -> Rc<CNode<W>> {
     let r = node_inner(id, c0, c1, writer);
     let w = WEAKED.load(Relaxed);
     if w == 1 || (w == 2 && id % 2 == 0) {
@@ -210,12 +231,12 @@ fn node(id: u64, c0: Rc<CNode>, c1: Rc<CNode>, writer: u64) -> Rc<CNode> {
     r
 }
 
-fn node_inner(id: u64, c0: Rc<CNode>, c1: Rc<CNode>, writer: u64) -> Rc<CNode> {
+fn node_inner<const W: usize>(id: u64, c0: Rc<CNode<W>>, c1: Rc<CNode<W>>, writer: u64) -> Rc<CNode<W>> {
     CREATED.fetch_add(1, Relaxed);
     if writer == 0 {
-        Rc::new(CNode { next: [AtomicRc::from(c0), AtomicRc::from(c1)], id })
+        Rc::new(CNode { next: [AtomicRc::from(c0), AtomicRc::from(c1)], id, pad: [id; W] })
     } else {
-        let r = Rc::new(CNode { next: [AtomicRc::null(), AtomicRc::null()], id });
+        let r = Rc::new(CNode { next: [AtomicRc::null(), AtomicRc::null()], id, pad: [id; W] });
         if !c0.is_null() {
             link(&r, 0, c0, writer);
         }
@@ -227,13 +248,13 @@ fn node_inner(id: u64, c0: Rc<CNode>, c1: Rc<CNode>, writer: u64) -> Rc<CNode> {
 }
 
 /// Build a structure of n nodes; returns (head, held interior node or null).
-fn build(shape: &str, n: u64, writer: u64, hold_at: i64, weak_at: &[u64], weaks: &mut Vec<(u64, circ::Weak<CNode>)>) -> (Rc<CNode>, Rc<CNode>) {
+fn build<const W: usize>(shape: &str, n: u64, writer: u64, hold_at: i64, weak_at: &[u64], weaks: &mut Vec<(u64, circ::Weak<CNode<W>>)>) -> (Rc<CNode<W>>, Rc<CNode<W>>) {
     let mut held = Rc::null();
     match shape {
         "binary-tree" | "wide-tree" => {
             // heap layout: node i has children 2i+1, 2i+2 (wide-tree: a degenerate left spine
             // whose nodes all share... no sharing; just a different fill order)
-            let mut slots: Vec<Rc<CNode>> = (0..n).map(|_| Rc::null()).collect();
+            let mut slots: Vec<Rc<CNode<W>>> = (0..n).map(|_| Rc::null()).collect();
             for i in (0..n as usize).rev() {
                 let c0 = if 2 * i + 1 < n as usize { std::mem::take(&mut slots[2 * i + 1]) } else { Rc::null() };
                 let c1 = if 2 * i + 2 < n as usize { std::mem::take(&mut slots[2 * i + 2]) } else { Rc::null() };
@@ -241,10 +262,23 @@ fn build(shape: &str, n: u64, writer: u64, hold_at: i64, weak_at: &[u64], weaks:
             }
             (std::mem::take(&mut slots[0]), held)
         }
+        "express" => {
+            // node i points to i+1 and to i+2 (a skip-list tower of height 2): every node but the
+            // first two is reached twice by one cascade
+            let mut next1: Rc<CNode<W>> = Rc::null();
+            let mut next2: Rc<CNode<W>> = Rc::null();
+            for i in (0..n).rev() {
+                let me = node(i, next1.clone(), next2, writer);
+                next2 = next1;
+                next1 = me;
+            }
+            drop(next2);
+            (next1, held)
+        }
         "right-spine" | "zig-zag" => {
             // the only edge of node i sits in next[1] (right spine) or alternates (zig-zag), so a
             // null edge precedes the non-null one in pop_edges order
-            let mut head: Rc<CNode> = Rc::null();
+            let mut head: Rc<CNode<W>> = Rc::null();
             for i in (0..n).rev() {
                 let right = shape == "right-spine" || i % 2 == 1;
                 head = if right { node(i, Rc::null(), head, writer) } else { node(i, head, Rc::null(), writer) };
@@ -255,7 +289,7 @@ fn build(shape: &str, n: u64, writer: u64, hold_at: i64, weak_at: &[u64], weaks:
             // spine on next[1]; next[0] holds a leaf (or a 3-node subtree) that is popped first
             let per = if shape == "comb-right" { 2 } else { 4 };
             let levels = (n / per).max(1);
-            let mut head: Rc<CNode> = Rc::null();
+            let mut head: Rc<CNode<W>> = Rc::null();
             let mut id = n + 10;
             for _ in 0..levels {
                 id -= 1;
@@ -279,14 +313,14 @@ fn build(shape: &str, n: u64, writer: u64, hold_at: i64, weak_at: &[u64], weaks:
                 x ^= x << 17;
                 x
             };
-            let mut pool: Vec<Rc<CNode>> = Vec::new();
+            let mut pool: Vec<Rc<CNode<W>>> = Vec::new();
             for i in 0..n {
                 let c0 = if !pool.is_empty() && next() % 10 < 6 { pool.swap_remove((next() % pool.len() as u64) as usize) } else { Rc::null() };
                 let c1 = if !pool.is_empty() && next() % 10 < 6 { pool.swap_remove((next() % pool.len() as u64) as usize) } else { Rc::null() };
                 pool.push(node(i, c0, c1, writer));
             }
             // join what is left into one structure along next[1]
-            let mut head: Rc<CNode> = Rc::null();
+            let mut head: Rc<CNode<W>> = Rc::null();
             let mut i = n;
             while let Some(t) = pool.pop() {
                 head = node(i, t, head, writer);
@@ -297,7 +331,7 @@ fn build(shape: &str, n: u64, writer: u64, hold_at: i64, weak_at: &[u64], weaks:
         "comb" => {
             // a spine of n/2 nodes, each with a leaf on next[1]
             let spine = (n / 2).max(1);
-            let mut head: Rc<CNode> = Rc::null();
+            let mut head: Rc<CNode<W>> = Rc::null();
             let mut id = n;
             for _ in 0..spine {
                 id -= 1;
@@ -312,7 +346,7 @@ fn build(shape: &str, n: u64, writer: u64, hold_at: i64, weak_at: &[u64], weaks:
             (head, held)
         }
         _ => {
-            let mut head: Rc<CNode> = Rc::null();
+            let mut head: Rc<CNode<W>> = Rc::null();
             for i in (0..n).rev() {
                 head = node(i, head, Rc::null(), writer);
                 if i as i64 == hold_at {
@@ -339,10 +373,42 @@ struct Report {
     e1: u64,
 }
 
+/// The last reference is dropped by another thread's thread-local destructor, which runs after
+/// that thread's participant handle is gone (set once per run; consumed by the first release).
+static DROP_IN_TLS: AtomicU64 = AtomicU64::new(0);
+static HANDOFF: std::sync::Mutex<Option<Box<dyn FnOnce() + Send>>> = std::sync::Mutex::new(None);
+
+struct TlsDrop(Option<Box<dyn FnOnce() + Send>>);
+impl Drop for TlsDrop {
+    fn drop(&mut self) {
+        if let Some(f) = self.0.take() {
+            sim().fault("last_reference_dropped_in_tls_destructor");
+            f();
+        }
+    }
+}
+thread_local! {
+    static TLSD: std::cell::RefCell<TlsDrop> = const { std::cell::RefCell::new(TlsDrop(None)) };
+}
+
+/// Body of the thread whose thread-local destructor drops the structure.
+fn tls_dropper(tid: usize) {
+    TLSD.with(|_| ()); // registered before the participant handle: destroyed after it
+    drop(circ::cs());
+    sim().await_signal(tid, 1);
+    let f = HANDOFF.lock().unwrap().take();
+    TLSD.with(|t| t.borrow_mut().0 = f);
+}
+
 /// release `head` and run janitor rounds until `target` destructors have run (or give up)
-fn release_and_wait(head: Rc<CNode>, target: u64, max_rounds: u64) -> Report {
+fn release_and_wait<const W: usize>(head: Rc<CNode<W>>, target: u64, max_rounds: u64) -> Report {
     let e0 = crate::runner::clock();
-    drop(head);
+    if DROP_IN_TLS.swap(0, Relaxed) != 0 {
+        *HANDOFF.lock().unwrap() = Some(Box::new(move || drop(head)));
+        sim().raise_signal(1);
+    } else {
+        drop(head);
+    }
     let mut rounds = 0;
     while DROPS.load(Relaxed) < target && rounds < max_rounds {
         round();
@@ -351,13 +417,14 @@ fn release_and_wait(head: Rc<CNode>, target: u64, max_rounds: u64) -> Report {
     Report { rounds, e0, e1: LAST_DROP_EPOCH.load(Relaxed).max(e0) }
 }
 
-fn destroyer(desc: &RunDesc, out: &mut Vec<(String, String)>, fam: &mut J) {
+fn destroyer<const W: usize>(desc: &RunDesc, out: &mut Vec<(String, String)>, fam: &mut J) {
     let p = &desc.params;
     let n = p.getu("n");
     let shape = p.gets("shape").to_string();
     let writer = ["from_rc", "store", "swap", "compare_exchange"].iter().position(|w| *w == p.gets("link_writer")).unwrap_or(0) as u64;
     let hold_at = p.geti("hold_at");
     WEAKED.store(p.getu("weaked_nodes"), Relaxed);
+    DROP_IN_TLS.store(p.getu("drop_in_tls"), Relaxed);
     let stack_check = p.getb("stack_check");
     // With other threads around, a cascade may run on (and re-defer into the local bag of) a
     // thread that is then not scheduled for a long time; reclamation latency is then the
@@ -372,11 +439,14 @@ fn destroyer(desc: &RunDesc, out: &mut Vec<(String, String)>, fam: &mut J) {
     // C07 reference: the stack a 2048-node chain needs (reaches the depth cap)
     let mut ref_span = 0usize;
     if stack_check {
-        let (h, _) = build("chain", 2048, 1, -1, &[], &mut Vec::new());
+        // (always payload-free nodes: the plateau must not depend on what a node carries inline)
+        let (h, _) = build::<0>("chain", 2048, 1, -1, &[], &mut Vec::new());
         for _ in 0..5 {
             round();
         }
+        let tls_flag = DROP_IN_TLS.swap(0, Relaxed);
         let r = release_and_wait(h, 2048, 400);
+        DROP_IN_TLS.store(tls_flag, Relaxed);
         if DROPS.load(Relaxed) != 2048 {
             soft("nodes-not-reclaimed", format!("reference chain: only {} of 2048 nodes destructed after {} rounds", DROPS.load(Relaxed), r.rounds));
         }
@@ -389,7 +459,7 @@ fn destroyer(desc: &RunDesc, out: &mut Vec<(String, String)>, fam: &mut J) {
     }
     user_yield();
     let weak_at: Vec<u64> = p.geta("weak_positions").iter().filter_map(|x| x.as_u64()).collect();
-    let mut weaks: Vec<(u64, circ::Weak<CNode>)> = Vec::new();
+    let mut weaks: Vec<(u64, circ::Weak<CNode<W>>)> = Vec::new();
     let (head, held) = build(&shape, n, writer, hold_at, &weak_at, &mut weaks);
     let total = CREATED.load(Relaxed);
     for _ in 0..p.getu("age_rounds") {
@@ -485,10 +555,17 @@ pub fn run(desc: &RunDesc) -> ! {
             body: Arc::new(move |_tid| {
                 let mut out = Vec::new();
                 let mut fam = J::obj();
-                destroyer(&d, &mut out, &mut fam);
+                if d.params.getu("payload_words") >= 128 {
+                    destroyer::<128>(&d, &mut out, &mut fam);
+                } else {
+                    destroyer::<0>(&d, &mut out, &mut fam);
+                }
                 *result.lock().unwrap() = (out, fam);
             }),
         });
+    }
+    if desc.params.getu("drop_in_tls") != 0 {
+        specs.push(ThreadSpec { phase: 0, stack: (desc.threads[0].stack_kib as usize) << 10, name: "tls-dropper", body: Arc::new(tls_dropper) });
     }
     for t in desc.threads.iter().skip(1) {
         let ops = t.ops.clone();
